@@ -102,7 +102,7 @@ def setup (model : String) (p : Array Float) : Option Setup :=
       let sArr : Array Float := (mt.flatten.map Model.ProtModel.ofRat).toArray
       let pArr : Array Float := (pt.map Model.ProtModel.ofRat).toArray
       let user : Option (Nat → Float) := if sz == 21 then some (fn1 (p.extract 1 21)) else none
-      let ini := Model.ProtModel.initModel 20 (fn2 20 sArr) (fn1 pArr) user
+      let ini := Model.ProtModel.initModelN 20 (fn2 20 sArr) (fn1 pArr) user
       some ⟨20, (Array.range 20).map ini.pi, none, none, some (Mat.ofFn 20 ini.q).a, fn2 20 sArr⟩
   | _, _ => none
 
